@@ -61,7 +61,7 @@ def loop_xml(rng, n, cone, solver, jacobian):
   link, with limits, friction loss, a tendon limit and a few touching geoms."""
   out = ["<mujoco>", "  " + options_xml(rng, cone, solver, jacobian), '  <compiler angle="radian"/>', "  <worldbody>"]
   out.append('    <geom name="floor" type="plane" size="0 0 1" pos="0 0 -0.05"/>')
-  out.append('    <site name="anchor" pos="0 0 1"/>')
+  out.append('    <site name="anchor" pos="0.15 0.1 1.25"/>')  # off the chain axis: tendon_invweight0 must not vanish
   L = 0.25
   ind = "    "
   jts = []
